@@ -87,6 +87,7 @@ type gen struct {
 	feat   map[string]bool
 	widths []int
 	depth  int
+	pool   []int
 }
 
 var scalarWidths = []int{8, 8, 16, 16, 32, 32, 64, 7, 13, 24, 33}
@@ -112,12 +113,26 @@ func (g *gen) varsOf(pred func(gvar) bool) []gvar {
 	return out
 }
 
+// lit: literals come from a small per-program pool so that the same numeric
+// constant is used at several widths (the streamer then pads / truncates the
+// constant's wires: "Const values are cast to different value sizes"), and
+// signed types also get negative ones (sign-extending pad).
 func (g *gen) lit(t ty) string {
-	max := 250
-	if t.bits < 8 {
-		max = 1 << (t.bits - 1)
+	if len(g.pool) == 0 {
+		n := 3 + g.r.Intn(4)
+		for i := 0; i < n; i++ {
+			g.pool = append(g.pool, 1+g.r.Intn(59))
+		}
 	}
-	return fmt.Sprint(1 + g.r.Intn(max-1))
+	v := g.pool[g.r.Intn(len(g.pool))]
+	if t.bits < 7 {
+		v = 1 + v%((1<<(t.bits-1))-1)
+	}
+	if t.k == kInt && g.r.Intn(2) == 0 {
+		g.feat["neg_literal"] = true
+		return fmt.Sprintf("-%d", v)
+	}
+	return fmt.Sprint(v)
 }
 
 // scalar expression of exactly type t; alias reports whether the expression
@@ -199,7 +214,7 @@ func (g *gen) line(format string, a ...any) {
 
 func (g *gen) randScalarType() ty {
 	w := g.pickWidth()
-	if g.r.Intn(4) == 0 {
+	if g.r.Intn(5) < 2 {
 		return ty{k: kInt, bits: w}
 	}
 	return ty{k: kUint, bits: w}
@@ -274,7 +289,7 @@ func (g *gen) stmt() {
 		g.line("%s := %s + %s", n, a.name, b.name)
 		g.vars = append(g.vars, gvar{name: n, t: ty{k: kArr, bits: a.t.bits, sgn: a.t.sgn, n: a.t.n + b.t.n}, alias: true})
 		g.feat["concat"] = true
-	case c < 92 && len(muts) > 0:
+	case c < 90 && len(muts) > 0:
 		v := muts[g.r.Intn(len(muts))]
 		e1, _ := g.scalar(v.t, g.depth)
 		cnd := g.cond()
@@ -285,6 +300,25 @@ func (g *gen) stmt() {
 			g.line("if %s {\n\t\t%s = %s\n\t}", cnd, v.name, e1)
 		}
 		g.feat["phi"] = true
+	case c < 96 && len(scal) > 0:
+		// signed narrowing then widening: smov (sign wire = top bit of the
+		// source) and, for unsigned, zero-extending mov
+		v := scal[g.r.Intn(len(scal))]
+		nb := []int{5, 8, 8, 13, 16}[g.r.Intn(5)]
+		wb := nb + 1 + g.r.Intn(40)
+		if wb > 64 {
+			wb = 64
+		}
+		k := kInt
+		if g.r.Intn(4) == 0 {
+			k = kUint
+		}
+		n1, n2 := g.fresh(), g.fresh()
+		t1, t2 := ty{k: k, bits: nb}, ty{k: k, bits: wb}
+		g.line("%s := %s(%s)", n1, t1, v.name)
+		g.line("%s := %s(%s)", n2, t2, n1)
+		g.vars = append(g.vars, gvar{name: n1, t: t1, alias: true, mut: true}, gvar{name: n2, t: t2, alias: true, mut: true})
+		g.feat["widen"] = true
 	default:
 		// explicit alias chain: x := v >> c1 ; y := x >> c2 (or casts)
 		if len(scal) == 0 {
@@ -367,6 +401,12 @@ func (g *gen) arg(name string, class string, idx int) (decl string, inputs []str
 	switch {
 	case class == "wide" && idx == 0:
 		t := ty{k: kArr, bits: 64, n: 1030 + r.Intn(90)}
+		if r.Intn(3) == 0 {
+			// the inputs end right at the 16/32-bit id boundary (wire ids
+			// 65535 / 65536 are the last input bits or {zero} / {one})
+			t.n = 1022 + r.Intn(3)
+			g.feat["wide_boundary"] = true
+		}
 		g.vars = append(g.vars, gvar{name: name, t: t})
 		g.feat["wide_input"] = true
 		return t.String(), []string{inputFor(r, t)}, ""
@@ -379,6 +419,11 @@ func (g *gen) arg(name string, class string, idx int) (decl string, inputs []str
 		g.widths = append(g.widths, bits, bits)
 		g.feat["unsized_arg"] = true
 		return "uint", []string{"0x" + hexDigits(r, digits)}, ""
+	case class == "wide" && idx == 1:
+		t := ty{k: kUint, bits: []int{64, 64, 63, 33, 32, 1 + r.Intn(64)}[r.Intn(6)]}
+		g.vars = append(g.vars, gvar{name: name, t: t})
+		g.widths = append(g.widths, t.bits)
+		return t.String(), []string{inputFor(r, t)}, ""
 	case c < 45:
 		t := g.randScalarType()
 		g.vars = append(g.vars, gvar{name: name, t: t})
@@ -441,6 +486,13 @@ func genProgram(r *hxlib.Rng, class string) *prog {
 	ns := 4 + r.Intn(14)
 	if class == "wide" {
 		ns = 4 + r.Intn(8)
+	}
+	if g.feat["wide_boundary"] {
+		// the first allocated value straddles (or ends at) wire id 65536
+		av := g.vars[0]
+		n := g.fresh()
+		g.line("%s := (%s[%d] ^ %s[%d])", n, av.name, r.Intn(av.t.n), av.name, av.t.n-1-r.Intn(3))
+		g.vars = append(g.vars, gvar{name: n, t: av.t.elem(), mut: true})
 	}
 	for i := 0; i < ns; i++ {
 		g.stmt()
